@@ -297,6 +297,34 @@ def build_multi(mc, rockit):
     return master, Bs, mv
 
 
+def observe_multi(master, Bs, mv, cases, points):
+    """NLP of a transcribed multi-stage OCP at semantic points: (observation, objective values, rows)"""
+    from .. import nlp
+    import casadi as ca
+    import numpy as np
+
+    def qs_fn(B0, case0):
+        qs = []
+        for i, (B, c) in enumerate(zip(Bs, cases)):
+            qs += [("%d:%s" % (i, n), e) for n, e in nlp.quantities(B, c)]
+        if mv:
+            qs.append(("MV", master.value(ca.vvcat(mv))))
+        return qs
+    ob = nlp.observe(Bs[0], cases[0], None, qs_fn=qs_fn)
+    targets = []
+    for mp_ in points:
+        vals = []
+        for name, shape in ob.qnames:
+            if name == "MV":
+                vals += [float(Fr(a)) for a in mp_["V"]]
+            else:
+                i, n = name.split(":")
+                vals += list(nlp.flatten_q([(n, shape)], mp_["stages"][int(i)]))
+        targets.append(np.array(vals))
+    objs, rows = nlp.rockit_rows(ob, targets)
+    return ob, objs, rows
+
+
 def rockit_side(args):
     mc, points = args
     from ..common import setup_rockit_path
@@ -314,26 +342,7 @@ def rockit_side(args):
             Bs[0].ocp.sample(Bs[0].ocp.t, grid="control")   # forces transcription of the whole tree
             out["inputs"] = [engine.impl_inputs(B, c) for B, c in zip(Bs, cases)]
 
-            def qs_fn(B0, case0):
-                qs = []
-                for i, (B, c) in enumerate(zip(Bs, cases)):
-                    qs += [("%d:%s" % (i, n), e) for n, e in nlp.quantities(B, c)]
-                if mv:
-                    qs.append(("MV", master.value(ca.vvcat(mv))))
-                return qs
-            ob = nlp.observe(Bs[0], cases[0], None, qs_fn=qs_fn)
-            targets = []
-            import numpy as np
-            for mp_ in points:
-                vals = []
-                for name, shape in ob.qnames:
-                    if name == "MV":
-                        vals += [float(Fr(a)) for a in mp_["V"]]
-                    else:
-                        i, n = name.split(":")
-                        vals += list(nlp.flatten_q([(n, shape)], mp_["stages"][int(i)]))
-                targets.append(np.array(vals))
-            objs, rows = nlp.rockit_rows(ob, targets)
+            ob, objs, rows = observe_multi(master, Bs, mv, cases, points)
             out["objs"] = objs
             out["rows"] = [(s, list(map(float, hs))) for s, key, hs in rows]
             out["nx_opti"] = ob.nx
